@@ -108,6 +108,19 @@ pub fn finish(prop: &str, tier: &str, seed: i64, jobs: &[Box<dyn JobT>], outcome
     let mut unmatched: Vec<Value> = vec![];
     let mut machinery_error = false;
     for (ji, o) in outcomes.iter().enumerate() {
+        // vacuity guards (DESIGN.md §3.7): the alphabet must still produce concurrency / pending removes
+        if o.cfg.n >= 2 && o.cfg.actors >= 2 && o.stats.conflicts == 0 {
+            eprintln!("MACHINERY: vacuous exploration in {}: no history with concurrent ops", o.label);
+            machinery_error = true;
+        }
+        if o.cfg.n >= 2 && o.cfg.disc == crate::engine::Disc::Fifo && o.cfg.actors >= 2 && ["orswot", "map_mvreg", "map_orswot", "map_map_orswot"].contains(&o.system) && o.stats.pending_states == 0 {
+            eprintln!("MACHINERY: vacuous exploration in {}: per-actor-FIFO delivery never produced a pending remove", o.label);
+            machinery_error = true;
+        }
+        if o.cfg.n >= 2 && o.stats.outcomes.len() < 2 && o.stats.checks > 0 && !o.label.contains("validate") && !o.label.contains("self-check") {
+            eprintln!("MACHINERY: vacuous exploration in {}: a single distinct outcome", o.label);
+            machinery_error = true;
+        }
         if o.overflow {
             eprintln!("MACHINERY: state guard (64 states per knowledge set) hit in {} — exhaustiveness lost", o.label);
             machinery_error = true;
